@@ -48,9 +48,12 @@ Fixpoint item_of_json (fuel : nat) (j : json) : option item :=
   | O => None
   | S f =>
     match j with
-    | JArr [JStr "R"; JNum code; ops] => match nums ops with Some l => Some (Rec code l) | None => None end
-    | JArr [JStr "B"; JNum id; JNum nw; JArr body] =>
-      match map_opt (item_of_json f) body with Some l => Some (Blk id (Z.to_nat nw) l) | None => None end
+    | JArr [JStr k; JNum code; ops] =>
+      if String.eqb k "R" then match nums ops with Some l => Some (Rec code l) | None => None end else None
+    | JArr [JStr k; JNum id; JNum nw; JArr body] =>
+      if String.eqb k "B" then
+        match map_opt (item_of_json f) body with Some l => Some (Blk id (Z.to_nat nw) l) | None => None end
+      else None
     | _ => None
     end
   end.
@@ -58,16 +61,19 @@ Fixpoint item_of_json (fuel : nat) (j : json) : option item :=
 (* ---- writer ops ---- *)
 Definition op_of_json (j : json) : option wop :=
   match j with
-  | JArr [JStr "bits"; JNum a; JNum b] => Some (OBits a b)
-  | JArr [JStr "fixed"; JNum a; JNum b] => Some (OFixed a b)
-  | JArr [JStr "vbr"; JNum a; JNum b] => Some (OVbr a b)
-  | JArr [JStr "char6"; JNum a] => Some (OChar6 a)
-  | JArr [JStr "align"] => Some OAlign
-  | JArr [JStr "enter"; JNum a; JNum b] => Some (OEnter a b)
-  | JArr [JStr "exit"] => Some OExit
-  | JArr [JStr "record"; JNum a; vals] => match nums vals with Some l => Some (ORecord a l) | None => None end
-  | JArr [JStr "blob"; JNum a; vals; blob] =>
-    match nums vals, nums blob with Some l, Some bl => Some (OBlob a l bl) | _, _ => None end
+  | JArr (JStr k :: args) =>
+    match args with
+    | [] => if String.eqb k "align" then Some OAlign else if String.eqb k "exit" then Some OExit else None
+    | [JNum a] => if String.eqb k "char6" then Some (OChar6 a) else None
+    | [JNum a; JNum b] =>
+      if String.eqb k "bits" then Some (OBits a b) else if String.eqb k "fixed" then Some (OFixed a b)
+      else if String.eqb k "vbr" then Some (OVbr a b) else if String.eqb k "enter" then Some (OEnter a b) else None
+    | [JNum a; vals] =>
+      if String.eqb k "record" then match nums vals with Some l => Some (ORecord a l) | None => None end else None
+    | [JNum a; vals; blob] =>
+      if String.eqb k "blob" then match nums vals, nums blob with Some l, Some bl => Some (OBlob a l bl) | _, _ => None end else None
+    | _ => None
+    end
   | _ => None
   end.
 
@@ -108,16 +114,23 @@ Definition do_enc (j : json) : json :=
   end.
 
 (* ---- container ---- *)
+Definition prog_part_of_json (mk : Z -> Z -> Z -> list Z -> part) (j : json) : option part :=
+  match field_num "shader_kind" j, field_num "major" j, field_num "minor" j, bytes_field "data" j with
+  | Some k, Some ma, Some mi, Some d => Some (mk k ma mi d)
+  | _, _, _, _ => None
+  end.
+
 Definition part_of_json (j : json) : option part :=
   match field_str "kind" j with
-  | Some "raw" => match field_num "fourcc" j, bytes_field "data" j with Some fc, Some d => Some (mkPart fc d) | _, _ => None end
-  | Some "dxil" => match field_num "shader_kind" j, field_num "major" j, field_num "minor" j, bytes_field "data" j with
-                   | Some k, Some ma, Some mi, Some d => Some (dxil_part k ma mi d) | _, _, _, _ => None end
-  | Some "stat" => match field_num "shader_kind" j, field_num "major" j, field_num "minor" j, bytes_field "data" j with
-                   | Some k, Some ma, Some mi, Some d => Some (stat_part k ma mi d) | _, _, _, _ => None end
-  | Some "features" => match field_num "features" j with Some f => Some (features_part f) | None => None end
-  | Some "hash" => Some hash_part
-  | _ => None
+  | Some k =>
+    if String.eqb k "raw" then
+      match field_num "fourcc" j, bytes_field "data" j with Some fc, Some d => Some (mkPart fc d) | _, _ => None end
+    else if String.eqb k "dxil" then prog_part_of_json dxil_part j
+    else if String.eqb k "stat" then prog_part_of_json stat_part j
+    else if String.eqb k "features" then match field_num "features" j with Some f => Some (features_part f) | None => None end
+    else if String.eqb k "hash" then Some hash_part
+    else None
+  | None => None
   end.
 
 Definition do_container (j : json) : json :=
@@ -193,15 +206,17 @@ Definition do_scalar (j : json) : json :=
 
 Definition entry (j : json) : json :=
   match field_str "mode" j with
-  | Some "run" => do_run j
-  | Some "dec" => do_dec j
-  | Some "enc" => do_enc j
-  | Some "container" => do_container j
-  | Some "parse" => do_parse j
-  | Some "check" => do_check j
-  | Some "hash" => do_hash j
-  | Some "scalar" => do_scalar j
-  | _ => jerr "unknown mode"
+  | Some m =>
+    if String.eqb m "run" then do_run j
+    else if String.eqb m "dec" then do_dec j
+    else if String.eqb m "enc" then do_enc j
+    else if String.eqb m "container" then do_container j
+    else if String.eqb m "parse" then do_parse j
+    else if String.eqb m "check" then do_check j
+    else if String.eqb m "hash" then do_hash j
+    else if String.eqb m "scalar" then do_scalar j
+    else jerr "unknown mode"
+  | None => jerr "no mode"
   end.
 
 Extraction "model.ml" entry.
